@@ -359,6 +359,8 @@ def b_len(E, args, node):
         return Z(z3.Sum([z3.If(p if not isinstance(p, bool) else z3.BoolVal(p), 1, 0) for p in ps]), INT)
     if isinstance(v, Marker) and v.kind == 'keys':
         return b_len(E, CallArgs([v.obj], {}), node)
+    if isinstance(v, Opaque) and getattr(v, 'length', None) is not None:
+        return lib._as_val(v.length)                     # an opaque 1-D signal knows its number of samples
     raise Unsupported('len of %r' % (v,))
 
 
